@@ -360,3 +360,8 @@ def run(ck):
     ck.attempt(rule_demand_cost)
     ck.attempt(rule_nema)
     ck.attempt(rule_datetimes)
+    # "constraint currents are the phase-aware weighted sums for the requested constraints": the analysis function delegates to
+    # ChargingNetwork.constraint_current, whose own definition (deg2rad, unit phasors, coefficient x schedule, rows selected from the
+    # network's *present* matrix) is established by the network-side rules of C06 (they report under their C06 ids)
+    from .c06 import rule_network
+    ck.attempt(rule_network)
